@@ -435,6 +435,16 @@ func (s *Server) RunHookProg(prog Obj, req Obj) HookReply {
 	default:
 		return HookReply{Status: 500, Body: []byte(`unknown programme`)}
 	}
+	if AsBool(prog["needRelated"]) {
+		// the answer depends on the related objects the hook was sent: nothing is wanted while there are none
+		n := 0
+		for _, g := range AsMap(req["related"]) {
+			n += len(AsMap(g))
+		}
+		if n == 0 {
+			kids = []interface{}{}
+		}
+	}
 	resp[kidsKey] = kids
 	if st, ok := prog["status"]; ok {
 		resp["status"] = normTree(st)
